@@ -191,6 +191,11 @@ def cases(tier, seed):
                "nsample": rng.choice([60, 150, 400]) if tier == "quick"
                else rng.choice([150, 400, 1200]),
                "rs": "%s/C06/%d/fills" % (seed, i)}
+    # long and strongly non-uniform meshes (the property's 2..12 edges are the exhaustive part;
+    # the statement holds for any strictly increasing edges): values on every edge, beside it
+    # and between edges
+    for name in ("range40+1e6", "pow2_0..40", "decades-30..30", "1e6+range40", "squares60"):
+        yield {"k": "longmesh", "mesh": name}
     bad = [[], [0], [1.5], [0, 0], [1, 0], [0, 1, 1], [0, 2, 1], [0.0, 1.0, 1.0], [3, 2, 1],
            [0, 1, 2, 3, 3], [0, 1, 5, 4, 6], [[0, 1], [1]], [[0, 1], [2, 2]], [[0, 1], [3, 2]],
            [[1, 0], [0, 1]], [[0, 1], [0, 1], [5, 5]], [[0, 1], []], [[]],
@@ -257,7 +262,9 @@ def run_case(r, obs):
     import lena.structures
     mon.attach()        # idempotent; --replay runs a case without setup_worker
     try:
-        if r["k"] == "bad_edges":
+        if r["k"] == "longmesh":
+            _long_mesh(r, obs, lena)
+        elif r["k"] == "bad_edges":
             _bad_edges(r, obs, lena)
         elif r["k"] == "dim_mismatch":
             obs.nontrivial = True
@@ -282,6 +289,36 @@ def run_case(r, obs):
             _fill_case(r, obs, lena)
     finally:
         mon.flush(obs)
+
+
+def _long_mesh(r, obs, lena):
+    obs.nontrivial = True
+    mesh = {"range40+1e6": list(range(40)) + [10 ** 6],
+            "pow2_0..40": [2 ** i for i in range(41)],
+            "decades-30..30": [10.0 ** i for i in range(-30, 31)],
+            "1e6+range40": [-10 ** 6] + list(range(40)),
+            "squares60": [i * i for i in range(60)]}[r["mesh"]]
+    h = lena.structures.histogram(list(mesh))
+    ref = [0] * (len(mesh) - 1)
+    oor = 0
+    for e in mesh:
+        for x in (e, math.nextafter(float(e), INF), math.nextafter(float(e), -INF),
+                  e + (abs(e) or 1) * 0.37):
+            got = lena.structures.get_bin_on_value_1d(x, mesh)
+            exp = bisect.bisect_right(mesh, x) - 1
+            obs.count("direct_1d_calls")
+            obs.check(got == exp, "bin-index-differs-from-bisect:long-mesh",
+                      "get_bin_on_value_1d(%r, <%s, %d edges>) = %r, bisect_right - 1 = %r"
+                      % (x, r["mesh"], len(mesh), got, exp))
+            h.fill(x)
+            if 0 <= exp < len(ref):
+                ref[exp] += 1
+            else:
+                oor += 1
+    obs.check(h.bins == ref and h.n_out_of_range == oor, "final-bins-differ:structure:long-mesh",
+              "histogram over %s filled with values on / beside / between its edges: bins %r, "
+              "expected %r; n_out_of_range %r, expected %r" % (r["mesh"], h.bins, ref,
+                                                                h.n_out_of_range, oor))
 
 
 def _bad_edges(r, obs, lena):
@@ -345,6 +382,7 @@ def _fill_case(r, obs, lena):
     weights = [None] * len(pts) if element else _weights(r["wkind"], rng, len(pts))
     n_in = n_out = 0
     reused_buf = []
+    pending = None
     wsum_int = 0
     all_int = True
     for j, (pt, w) in enumerate(zip(pts, weights)):
@@ -377,6 +415,12 @@ def _fill_case(r, obs, lena):
             obs.check(got == exp, "get_bin_on_value-differs-from-bisect",
                       "get_bin_on_value(%r, %r) = %r, expected %r" % (coord, edges, got, exp))
         if element:
+            if j == len(pts) // 2 and r["ctx"]:
+                # a consumer takes the result now and keeps the generator suspended while the
+                # element goes on being filled; it is closed (or dropped) later
+                pending = el.compute()
+                next(pending)
+                obs.count("suspended_computes")
             if r["ctx"] and j % 2:
                 el.fill((coord, {"i": j}))
             else:
@@ -389,8 +433,15 @@ def _fill_case(r, obs, lena):
             h.fill(coord, w)
     obs.count("fills", len(pts))
     if element:
+        if pending is not None:
+            if len(pts) % 2:
+                pending.close()
+            del pending
         res = list(el.compute())
-        obs.check(len(res) == 1 and res[0][0] is h and isinstance(res[0][1], dict),
+        if len(res) == 1 and isinstance(res[0], tuple) and \
+                isinstance(res[0][0], lena.structures.histogram):
+            h = res[0][0]       # what the element reports now holds every fill
+        obs.check(len(res) == 1 and isinstance(res[0][1], dict),
                   "Histogram-compute-shape", "Histogram.compute() yielded %r" % (res,))
     # end-to-end comparison with the reference model, cells addressed by index product
     got_flat = [lena.structures.get_bin_on_index(list(idx), h.bins)
@@ -471,3 +522,6 @@ def finish(tier, merged):
 
 
 RULE += (' Coordinates are also given through one list object refilled in place; for the Histogram element two reset() rounds repeat the fills and must reproduce the cells of the first round.')
+RULE += (' Added: five long strongly non-uniform meshes (41..61 edges) with values on, beside and '
+         'between all edges; in the element cases a compute() generator is left suspended while '
+         'the element goes on being filled, then closed or dropped.')
